@@ -27,6 +27,7 @@ class Rule:
         self.type_stores: List[ast.AST] = []
         self.value_stores: List[ast.AST] = []
         self.lineno_updates: List[ast.AugAssign] = []
+        self.discards = False  # a t_ignore_<x> string rule
 
     def auto(self, flags: int) -> Auto:
         if self._auto is None:
@@ -35,7 +36,7 @@ class Rule:
 
     @property
     def delivers(self) -> bool:
-        return self.kind == "str" or "token" in self.exits
+        return (self.kind == "str" and not self.discards) or "token" in self.exits
 
 
 class LexModel:
@@ -166,12 +167,15 @@ class LexModel:
             elif isinstance(st, (ast.Assign, ast.AnnAssign)):
                 tg = st.targets[0] if isinstance(st, ast.Assign) else st.target
                 if isinstance(tg, ast.Name) and tg.id.startswith("t_") and tg.id not in ("t_ignore",):
-                    if tg.id.startswith("t_ignore_"):
-                        raise AnalysisError("t_ignore_* rules are not modelled")
                     v = self.F.get(tg.id)
                     if not isinstance(v, str):
                         raise AnalysisError(f"string rule {tg.id} did not fold to a string")
-                    strs.append(Rule(tg.id, "str", v, st, None))
+                    r_ = Rule(tg.id, "str", v, st, None)
+                    if tg.id.startswith("t_ignore_"):
+                        # PLY: a string rule named t_ignore_<x> matches like any other string rule and its text is dropped
+                        # (no token, no rule function, hence no line accounting)
+                        r_.discards = True
+                    strs.append(r_)
         # a later definition of the same name replaces the earlier one
         def dedupe(rs: List[Rule]) -> List[Rule]:
             seen: Dict[str, Rule] = {}
